@@ -52,7 +52,13 @@ pub struct Node<'n> { pub _p: core::marker::PhantomData<&'n ()>, pub g_tree: Gho
 pub struct PageNode<'a> { pub _p: core::marker::PhantomData<&'a ()>, pub g_tree: Ghost<int>, pub g_id: Ghost<PageNodeID> }
 impl<'a> Leaf<'a> {
     #[verifier::external_body]
-    pub fn key(&self) -> (r: &[u8]) { unimplemented!() }
+    pub fn key(&self) -> (r: &[u8])
+        ensures r@ == leaf_key(*self),
+    { unimplemented!() }
+}
+// the key of an entry: the bytes of its first component
+pub open spec fn leaf_key(l: Leaf) -> Seq<u8> {
+    match l { Leaf::Kv(k, _) => key_view(k), Leaf::Bucket(n, _) => key_view(n) }
 }
 impl<'a> PageNode<'a> {
     #[verifier::external_body]
@@ -112,7 +118,7 @@ impl<'b> InnerBucket<'b> {
 
 // ---- what InnerBucket::delete_bucket needs ----
 pub trait ToBytes<'a> {
-    fn to_bytes(self) -> Bytes<'a>;
+    fn to_bytes(self) -> (r: Bytes<'a>);
 }
 impl<'a> ToBytes<'a> for &Bytes<'a> {
     #[verifier::external_body]
